@@ -120,4 +120,67 @@ theorem nonApp_append_appPart_perm (b : List Entry) : (nonApp b ++ appPart b).Pe
   unfold nonApp appPart
   exact List.perm_append_comm.trans this
 
+/-- The two shapes of `asaSplit`: nothing is moved, or the last non-APPEND line of `b` is
+`deny ip any6 any6` and goes behind the lines of `a`. -/
+theorem asaSplit_cases (a b : List Entry) :
+    asaSplit a b = (nonApp b, a) ∨
+    ∃ init x, x.isAny6 = true ∧ nonApp b = init ++ [x] ∧ asaSplit a b = (init, a ++ [x]) := by
+  unfold asaSplit
+  simp only
+  split
+  · rename_i x hx
+    split
+    · rename_i h6
+      right
+      obtain ⟨ys, hys⟩ := List.getLast?_eq_some_iff.mp hx
+      exact ⟨ys, x, h6, hys, by rw [hys]; simp⟩
+    · left; rfl
+  · left; rfl
+
+theorem asaSplit_fst (a b : List Entry) :
+    (asaSplit a b).1 = nonApp b ∨
+    ∃ x, x.isAny6 = true ∧ nonApp b = (asaSplit a b).1 ++ [x] ∧ (asaSplit a b).2 = a ++ [x] := by
+  rcases asaSplit_cases a b with h | ⟨init, x, hx, hp, h⟩
+  · left; rw [h]
+  · right; exact ⟨x, hx, by rw [h]; exact hp, by rw [h]⟩
+
+theorem asaSplit_snd (a b : List Entry) :
+    (asaSplit a b).2 = a ∨ ∃ x, x.isAny6 = true ∧ (asaSplit a b).2 = a ++ [x] := by
+  rcases asaSplit_cases a b with h | ⟨init, x, hx, _, h⟩
+  · left; rw [h]
+  · right; exact ⟨x, hx, by rw [h]⟩
+
+/-- `(top lines) ++ (Netspoc lines incl. a moved any6 line)` is a permutation of `nonApp b ++ a`. -/
+theorem asaSplit_perm (a b : List Entry) :
+    ((asaSplit a b).1 ++ (asaSplit a b).2).Perm (nonApp b ++ a) := by
+  rcases asaSplit_cases a b with h | ⟨init, x, _, hp, h⟩
+  · rw [h]
+  · rw [h, hp]
+    simp only [List.append_assoc]
+    refine List.Perm.append_left _ ?_
+    exact List.perm_append_comm
+
+theorem perm_parts (a b r : List Entry) (h : r.Perm (nonApp b ++ a ++ appPart b)) : r.Perm (a ++ b) := by
+  refine h.trans ?_
+  have h2 : (nonApp b ++ a ++ appPart b).Perm (a ++ (nonApp b ++ appPart b)) := by
+    simp only [List.append_assoc]
+    exact (List.perm_append_comm_assoc (nonApp b) a (appPart b))
+  exact h2.trans (List.Perm.append_left a (nonApp_append_appPart_perm b))
+
+
+theorem mergeASA_perm (a b : List Entry) : (mergeASA a b).Perm (a ++ b) := by
+  have h : Placed Entry.notPermit (asaSplit a b).1 (asaSplit a b).2 (appPart b) (mergeASA a b) :=
+    placed_insert _ _ _ _
+  refine h.perm.trans ?_
+  exact perm_parts a b _ ((asaSplit_perm a b).append_right (appPart b))
+
+theorem mergeIOS_perm (a b : List Entry) : (mergeIOS a b).Perm (a ++ b) :=
+  perm_parts a b _ (placed_insert Entry.notPermit (nonApp b) a (appPart b)).perm
+
+theorem mergeLinux_perm (a b : List Entry) : (mergeLinux a b).Perm (a ++ b) :=
+  perm_parts a b _ (placed_insert Entry.isDrop (nonApp b) a (appPart b)).perm
+
+theorem mergePan_perm (a b : List Entry) : (mergePan a b).Perm (a ++ b) :=
+  perm_parts a b _ (List.Perm.refl _)
+
 end NA.C18
